@@ -172,8 +172,9 @@ CLAIMED["C06"] = dict(
     "to F when insert() returns (inserted_code_belongs_to_the_function); the premises (fresh patch block ids, cache mirrors "
     "table, entries are blocks) are evaluated on the recorded states." + EMOD_TIE +
     " The function-table step of remove_block promotes the next block to an entry only inside the removed block's "
-    "function (entry_promotion_only_within_the_function). Partial: that data never belongs to a function, and "
-    "(with retarget_to_proxy) that no block inherits the entry, are decided by oracle and correspondence.",
+    "function, and with retarget_to_proxy no block inherits the entry (entry_promotion_only_within_the_function, "
+    "removal_promotes_only_the_next_block_of_the_function). Partial: that data never belongs to a function is "
+    "decided by oracle and correspondence.",
     technique=EMOD_TECH,
     design="DESIGN.md#c06",
 )
